@@ -37,7 +37,7 @@ def gen_ids(rng: random.Random, mode: str, n: int | None = None) -> list[str]:
 def base_cfg(rng: random.Random, modes: list[str]) -> S.SimCfg:
     mode = rng.choice(modes)
     k = rng.choice([1, 1, 2, 2, 2, 3, 3, 4])
-    cfg = S.SimCfg(mode=mode, numnodes=k, ids=gen_ids(rng, mode))
+    cfg = S.SimCfg(mode=mode, numnodes=k, ids=gen_ids(rng, mode, rng.choice([8, 13, 17, 24, 30]) if mode == "worksteal" and rng.random() < 0.6 else None))
     cfg.msc = rng.choice([None, None, None, 1, 2, 5, 0, -1]) if mode == "load" else None
     cfg.via_n = rng.random() < 0.8
     for i in range(len(cfg.ids)):
